@@ -14,6 +14,7 @@ import (
 	"os"
 	"os/exec"
 	"path/filepath"
+	"regexp"
 	"sort"
 	"strings"
 	"time"
@@ -91,6 +92,10 @@ type Result struct {
 	Seen     map[int]int  `json:"-"` // site -> largest map seen in this run
 }
 
+// runDirRe strips the per-execution scratch directory (its number depends on how
+// many executions a time-boxed shrink performed, which must not leak into logs).
+var runDirRe = regexp.MustCompile(`^/[a-z]+[0-9]+`)
+
 var baseClock = time.Date(2026, 1, 2, 3, 4, 5, 6, time.UTC)
 
 func init() { log.SetOutput(io.Discard) }
@@ -105,7 +110,7 @@ func RunInProcess(inv Invocation, inDir, outDir string, s Sched, root string) (r
 	verifhook.Clock = baseClock.Add(s.ClockOffset)
 	var events []string
 	verifhook.EventLog = func(e string) { events = append(events, e) }
-	simos.PathMap = func(p string) string { return strings.TrimPrefix(p, root) }
+	simos.PathMap = func(p string) string { return runDirRe.ReplaceAllString(strings.TrimPrefix(p, root), "") }
 	simos.CLIMode = false
 	simos.Reset(s.FaultAt, s.Kind, s.TornNum, s.TornDen)
 	func() {
